@@ -240,7 +240,7 @@ def check(run, F, tier):
                     ln2 = lin.len_of(("ref", ("arg", an), ())) if byref else lin.len_of(("sym", ("arg", an)))
                     facts = lin.facts_of_path(p) + consumed_facts(F, p, lin, expand)
                     q = linear.lin_add(cons, ln2, -1)
-                    if not linear.entails(facts, q):
+                    if not linear.entails(facts + linear.aux_facts(lin, facts + [q]), q):
                         bad = (p, "consumed <= len(%s) not proved" % an)
             key = panics.short_fn(path)
             if nok and not arg_idx:
